@@ -365,13 +365,16 @@ Definition url_attr_names : list str :=
    [112;105;110;103]; [105;99;111;110]; [108;111;119;115;114;99]; [100;121;110;115;114;99]; [99;108;97;115;115;105;100];
    [112;114;111;102;105;108;101]; [120;109;108;58;98;97;115;101]].
 
+(** validURL is only reached for linkable() elements *)
+Definition checked_url_key (el : str) : option str := if mem_str el linkable_els then url_key el else None.
+
 Definition starts_on (k : str) : bool := has_prefix [111; 110] (lower k).
 
 (** one emitted start / self-closing tag is inert *)
 Definition attr_inert (el : str) (kv : str * str) : bool :=
   negb (starts_on (fst kv))
   && (negb (mem_str (fst kv) url_attr_names)
-      || (match url_key el with Some k => str_eqb k (fst kv) | None => false end && scheme_allowed (snd kv))).
+      || (match checked_url_key el with Some k => str_eqb k (fst kv) | None => false end && scheme_allowed (snd kv))).
 
 Definition forbidden_elements : list str :=
   [s_script; s_style; s_iframe; [102;114;97;109;101]; [102;114;97;109;101;115;101;116]; [111;98;106;101;99;116];
